@@ -286,6 +286,10 @@ def main():
         import search
         return search.replay(prop, args.replay)
 
+    # the process time zone must not matter to any answer: run under a non-UTC TZ chosen by the seed
+    tz_env = ["Asia/Tokyo", "America/Adak", "Pacific/Kiritimati", "Europe/London", "UTC"][seed % 5]
+    os.environ["TZ"] = tz_env
+    time.tzset()
     t0 = time.time()
     logbuf = []
 
@@ -369,7 +373,8 @@ def main():
             "search": search_info,
             "unproved_clauses": cfg.get("unproved", []),
         },
-        "assumptions": cfg.get("assumes", []) + registry.COMMON_ASSUMPTIONS,
+        "assumptions": cfg.get("assumes", []) + registry.COMMON_ASSUMPTIONS
+        + ["process TZ for this run: " + tz_env],
         "wall_s": round(wall, 2),
         "violations": len(violations),
     }
